@@ -2,7 +2,9 @@ package props
 
 import (
 	"fmt"
+	"os"
 	"sort"
+	"strings"
 	"sync"
 	"time"
 
@@ -35,6 +37,9 @@ func boundsRun(c *Ctx, entries []*ssa.Function, hooks *bounds.Hooks) int {
 			continue
 		}
 		seen[fn] = true
+		if only := os.Getenv("RTPCHECK_ONLY"); only != "" && !strings.Contains(core.FuncName(fn), only) {
+			continue
+		}
 		uniq = append(uniq, fn)
 	}
 	type result struct {
